@@ -29,7 +29,7 @@ func init() {
 	for _, w := range c13Workloads {
 		floor = append(floor, "workload."+w)
 	}
-	floor = append(floor, "shared.where", "shared.subquery", "shared.exists", "shared.in-subquery", "shared.order", "shared.group", "shared.distinct", "shared.marker-between", "shared.cte-wrapped", "shared.cte-path", "shared.join-unaliased", "par.join", "par.join-fail", "par.async", "par.spinasync", "par.await-async", "par.async-deep", "par.join-like", "par.join-stateful", "par.join-panic", "workload.cold-start", "reexec.results-reused", "cached.open-range", "reader.fn-spelling")
+	floor = append(floor, "separate.builtins", "par.bg-reads-derived-row", "shared.where", "shared.subquery", "shared.exists", "shared.in-subquery", "shared.order", "shared.group", "shared.distinct", "shared.marker-between", "shared.cte-wrapped", "shared.cte-path", "shared.join-unaliased", "par.join", "par.join-fail", "par.async", "par.spinasync", "par.await-async", "par.async-deep", "par.join-like", "par.join-stateful", "par.join-panic", "workload.cold-start", "reexec.results-reused", "cached.open-range", "reader.fn-spelling")
 	fw.Register(&fw.Prop{
 		ID:    "C13",
 		Title: "Concurrent queries are free of data races, crashes and cross-talk",
@@ -59,9 +59,9 @@ type c13Job struct {
 	sql      string
 	opts     OptSet
 	multiset bool
-	reader   bool // ExecReader(doc, sql) instead of a query
+	reader   bool         // ExecReader(doc, sql) instead of a query
 	built    *genql.Query // an already constructed query, executed again (only ever by one goroutine)
-	refWant  bool // want / wantErr come from the reference model, not from a run in this process
+	refWant  bool         // want / wantErr come from the reference model, not from a run in this process
 	feat     string
 	want     string
 	wantErr  bool
@@ -257,6 +257,23 @@ func c13RunW(c *fw.Case, w string) {
 					feats = append(feats, "cached.open-range")
 					continue
 				}
+				if c.Chance(0.2) {
+					// built-in functions that serialise their argument (HASH, ENCODE)
+					// over many rows of documents that share nothing: whatever
+					// buffers they use, each query gets the digests of its own values
+					rows := make([]any, 30+c.Intn(40))
+					for r := range rows {
+						rows[r] = map[string]any{"rid": float64(r), "s": fmt.Sprintf("%s-%d-%d-%d", gen.RandString(c.R, gen.Plain, 3), g, i, r), "n": float64(c.Intn(100000)) / 8}
+					}
+					sql := gen.Pick(c.R, []string{
+						"SELECT rid, HASH(s, 'sha256') AS h, ENCODE(s, 'base64') AS e FROM big",
+						"SELECT rid, HASH(n, 'md5') AS h, ENCODE(n, 'hex') AS e, HASH(s, 'sha1') AS h2 FROM big",
+						"SELECT rid, DECODE(ENCODE(s, 'base32'), 'base32') AS back, HASH(s, 'sha512') AS h FROM big WHERE HASH(s, 'md5') != ''",
+					})
+					jobs[g] = append(jobs[g], &c13Job{doc: map[string]any{"big": rows}, sql: sql, feat: "separate.builtins"})
+					feats = append(feats, "separate.builtins")
+					continue
+				}
 				f := richForms[c.Intn(len(richForms))]
 				sql := f.build(c, d, "VFAIL")
 				jobs[g] = append(jobs[g], &c13Job{doc: d.fresh(), sql: sql, multiset: f.multiset || strings.Contains(sql, "JOIN")})
@@ -296,7 +313,7 @@ func c13RunW(c *fw.Case, w string) {
 		for g := 0; g < G; g++ {
 			for i := 0; i < iters; i++ {
 				var sql, feat string
-				switch c.Intn(10) {
+				switch c.Intn(11) {
 				case 9:
 					// the ON expression panics for the key groups whose z1 is NULL, while the
 					// other key groups are still being evaluated: an error, never a dead-lock
@@ -309,8 +326,18 @@ func c13RunW(c *fw.Case, w string) {
 					jn := gen.Pick(c.R, []string{"PARALLEL JOIN", "PARALLEL LEFT JOIN", "PARALLEL STRAIGHT_JOIN"})
 					on := gen.Pick(c.R, []string{"x.n1 = y.un1 AND ONCE.VFONCE(true, 1, 1)", "x.n1 >= y.un1 AND EXISTS (SELECT e FROM `x.arr` WHERE e >= 0)", "x.n1 = y.un1 OR EXISTS (SELECT 1 FROM `<-.c9`)",
 						"x.n1 >= y.un1 AND x.n1 IN (SELECT un1 FROM `<-u1`)", "x.s1 = y.us1 OR VF(true, 1, 2)",
+						// a call that is followed by plain columns among the operands of one expression
+						"ONCE.VFONCE(3, 1, 1) BETWEEN y.un1 AND x.n1", "ONCE.VFONCE(2, 1, 1) <= y.un1 AND x.rid >= 0", "x.rid >= 0 AND ONCE.VFONCE(4, 1, 1) NOT BETWEEN x.n1 AND y.un1", "ONCE.VFONCE(1, 1, 1) IN (x.n1, y.un1, 1)",
 						"x.n1 = y.un1 AND COUNT(*) BETWEEN 0 AND 500", "x.n1 >= y.un1 AND SUM(y.un1) IS NULL", "x.n1 = y.un1 AND MAX(x.n1) IS NOT NULL AND COUNT(*) BETWEEN 0 AND 9"})
 					sql, feat = "WITH c9 AS (SELECT rid FROM t1) SELECT x.rid, y.un1 FROM t1 x "+jn+" u1 y ON "+on, "par.join-stateful"
+					if !strings.Contains(on, "c9") && c.Chance(0.7) {
+						// (a CTE that has not been read serialises the join by itself)
+						sql = strings.TrimPrefix(sql, "WITH c9 AS (SELECT rid FROM t1) ")
+					}
+				case 5:
+					// background calls that are handed whole rows of a derived table and read them
+					q := gen.Pick(c.R, []string{"SPIN", "SPINASYNC", "ASYNC", "SPIN"})
+					sql, feat = gen.Pick(c.R, []string{"SELECT "+q+".VBGREAD(x) AS v FROM (SELECT * FROM t1) x", "SELECT "+q+".VBGREAD((SELECT * FROM `<-.u1`)) AS v FROM t1", "WITH c AS (SELECT * FROM t1) SELECT "+q+".VBGREAD(x) AS v FROM c x"}), "par.bg-reads-derived-row"
 				case 6:
 					// ASYNC calls, not wrapped in AWAIT, below the second FROM dimension
 					sql, feat = gen.Pick(c.R, []string{"SELECT rid, ASYNC.VF(a, rid, 1) AS r FROM cube", "SELECT rid, ASYNC.VF(b, rid, 2) AS r, SPINASYNC.VF(a, rid, 1) FROM cube WHERE a >= 0", "SELECT a, ASYNC.VF(a, 1, 1) AS r FROM mm"}), "par.async-deep"
